@@ -24,6 +24,14 @@ HARNESS = {
     'mqconc': dict(cpp=['h/h_mqconc.cpp'], c=['adp/adp_mqconc.c', 'isched/vrt.c'], repo=['librfn/messageq.c'],
                    asan=False, repo_cflags=['-fsanitize=thread'], libs=['-ldl', '-rdynamic'],
                    about='isched: library object code instrumented with -fsanitize=thread, linked against harness/isched/vrt.c (generated schedules, vector-clock race detection)'),
+    'ringseq': dict(cpp=['h/h_ringseq.cpp'], c=['adp/adp_ring.c'], repo=['librfn/ringbuf.c']),
+    'ringconc': dict(cpp=['h/h_ringconc.cpp'], c=['adp/adp_ring.c', 'isched/vrt.c'], repo=['librfn/ringbuf.c'], cflags=['-DVERIF_ISCHED'],
+                     asan=False, repo_cflags=['-fsanitize=thread'], libs=['-ldl', '-rdynamic'],
+                     about='isched: ringbuf.c object code instrumented with -fsanitize=thread under harness/isched/vrt.c'),
+    'fibconc': dict(cpp=['h/h_fibconc.cpp'], c=['adp/adp_fibconc.c', 'isched/vrt.c'],
+                    repo=['librfn/fibre.c', 'librfn/messageq.c', 'librfn/list.c', 'librfn/util.c', 'librfn/posix/time_posix.c'],
+                    asan=False, repo_cflags=['-fsanitize=thread'], libs=['-ldl', '-rdynamic'],
+                    about='isched: fibre.c, messageq.c, list.c object code instrumented with -fsanitize=thread under harness/isched/vrt.c'),
     'list': dict(cpp=['h/h_list.cpp'], c=['adp/adp_list.c'], repo=['librfn/list.c']),
 }
 
@@ -294,16 +302,28 @@ PROPS = {
     ),
     'C03': dict(
         title='fibre_scheduler_next returns a wake-up time that never oversleeps',
-        rule=FIB_RULE + 'Asserted here (sequential half): the value returned by every fibre_scheduler_next(t) equals t if the dispatched fibre '
+        rule=FIB_RULE + 'Asserted here: sequential half - the value returned by every fibre_scheduler_next(t) equals t if the dispatched fibre '
              'yielded or anything is runnable on return (run queue or an undrained accepted atomic request, including those issued by the '
              'fibre body), else the earliest pending due time (cyclically after t), else t+FIBRE_UNBOUNDED_SLEEP. Non-trivial: a call that '
              'returns with an undrained request, or with only timers pending, or after a yield. Distinct = distinct tapes.',
         stages=[
             dict(h='fibre', mode='rc', what='random histories', params=dict(oracle=3),
                  quick=dict(cases=200000, len=500), thorough=dict(cases=5000000, len=500)),
+        ] + [
+            dict(h='fibconc', mode='enum', what='ISR, script %d, handlers %s, %s granularity' % (sc, hs, 'every-access' if ea else 'atomic'),
+                 params=dict(dict(mode=1, script=sc, every_access=ea, oracle=3, handlers=len(hs), evdepth=ed), **{'h%d' % i: v for i, v in enumerate(hs)}),
+                 workers=2, common=dict(split=3, maxruns=1500000))
+            for (sc, hs, ea, ed) in [(0, (3, 1), 1, 1), (0, (4, 3, 2), 0, 2), (1, (3, 0), 1, 1), (1, (5, 3, 1), 0, 1), (2, (2, 3), 1, 2), (2, (1, 2, 0), 0, 1), (3, (3, 3), 1, 1), (3, (4, 4, 1), 0, 2), (4, (1, 2), 1, 1), (4, (2, 1, 1), 0, 1)]
+        ] + [
+            dict(h='fibconc', mode='rc', what='random scripts and interrupt placements (ISR)', params=dict(oracle=3, mode=1),
+                 quick=dict(cases=60000, len=500), thorough=dict(cases=3000000, len=500)),
         ],
-        require={'returns-with-undrained-atomic-request': 1000, 'returns-with-only-timers-pending': 1000, 'returns-after-a-yield': 1000},
-        assumptions=['interrupt-timing half (requests arriving inside fibre_scheduler_next) is the isched stage'],
+        require={'returns-with-undrained-atomic-request': 1000, 'returns-with-only-timers-pending': 1000, 'returns-after-a-yield': 1000,
+                 'request-completed-inside-fibre_scheduler_next': 1000},
+        assumptions=['interrupt-timing half: every placement of up to 3 handlers (nested <= 2) inside fibre_scheduler_next for fixed scripts, random beyond; '
+                     'rule A: a request that completed while the dispatched fibre entry point ran cannot have been drained in that call, so the result must be the current time; '
+                     'rule B: a request that completed after the main context\'s last modifying atomic access (in this call) to locations the interrupt contexts access atomically, and before its last atomic access to them, is undrained and visible to the final check',
+                     'free-running threads are excluded from C03 by its own quantifier (interrupt handlers)'],
     ),
     'C04': dict(
         title='Message queue is safe for many concurrent senders and one receiver',
@@ -340,6 +360,101 @@ PROPS = {
         assumptions=['executions are sequentially consistent interleavings at atomic-operation granularity (C07 carries them to weaker machines)',
                      'releases follow receive order; one receiver'],
         technique='fuzzing of schedules: compiler-instrumented object code under a harness-owned scheduler; bounded-exhaustive schedule enumeration + rapidcheck random schedules; event-history oracle',
+    ),
+    'C05': dict(
+        title='Ring buffer delivers each byte once, in order, for one producer and one consumer',
+        rule='sequential stage (ASan, exact heap block): buf_len 2..65, indices pre-cycled anywhere, <=80 put/putchar/get/empty ops '
+             'with all byte values (incl. >=0x80 through char) against a FIFO model. Concurrent stages: the real ringbuf.c object '
+             'code compiled with -fsanitize=thread under harness/isched/vrt.c: THREADS mode = producer and consumer coroutines '
+             'pre-empted before any atomic operation (ringbuf_putchar spins, a fairness rule keeps the consumer running); ISR mode = '
+             'two producer handlers nested in the consumer, or two consumer handlers nested in the producer. enum stages enumerate '
+             'every schedule of the stated scenario for every start offset; rc stages draw scenario and schedule. Oracle from '
+             'call/return events: successful gets == successful puts in order (after a final drain), a failed put / an empty result '
+             'only if the event times allow the buffer to have been full / empty during the call, every instrumented access inside '
+             'the buffer, canaries intact. Non-trivial: buffer both full and empty at some point and a put overlapped a get. '
+             'Distinct = distinct tapes.',
+        stages=[
+            dict(h='ringseq', mode='rc', what='sequential histories under ASan', quick=dict(cases=100000, len=260), thorough=dict(cases=3000000, len=260)),
+        ] + [
+            dict(h='ringconc', mode='enum', what='THREADS len %d, 3 puts, 4 consumer ops, start offset %d, all schedules' % (L, pre),
+                 params=dict(mode=0, len=L, puts=3, gets=4, pre=pre, empties=1, oracle=5), workers=4, common=dict(split=4, maxruns=2000000))
+            for L in (2, 3) for pre in range(L)
+        ] + [
+            dict(h='ringconc', mode='enum', what='ISR roles %d, len 3, 4 puts, 4 gets, every access' % r,
+                 params=dict(mode=1, roles=r, len=3, puts=4, gets=4, pre=2, every_access=1, oracle=5), workers=4, common=dict(split=4, maxruns=2000000))
+            for r in (0, 1)
+        ] + [
+            dict(h='ringconc', mode='rc', what='random scenarios and schedules', params=dict(oracle=5),
+                 quick=dict(cases=100000, len=300), thorough=dict(cases=5000000, len=300)),
+        ],
+        require={'buffer-was-full': 1000, 'buffer-was-empty': 1000, 'put-overlapped-get': 1000, 'putchar-spins-until-room': 500,
+                 'isr-producer-interrupts-consumer': 500, 'isr-consumer-interrupts-producer': 500, 'byte-values>=0x80': 1000, 'index-wrapped': 1000},
+        assumptions=['one producer context and one consumer context (in ISR mode the interrupting side is split into two handlers of equal priority, which cannot nest)'],
+        technique='property-based testing (FIFO model, ASan) + fuzzing of schedules: compiler-instrumented object code under a harness-owned scheduler, bounded-exhaustive and random',
+    ),
+    'C06': dict(
+        title='Interrupt-context wake-ups and fibre events are never lost or duplicated',
+        rule='case = a main-context script over three fibres (event handler with a 1-2 deep event queue, yielder, sleeper): fibre_run / '
+             'fibre_kill / fibre_run_atomic / scheduler passes with advancing time, plus 1-3 interrupt contexts each doing '
+             'fibre_run_atomic(f) or claim-fill-fibre_eventq_send (one or two events), plus the placement of those contexts - all '
+             'from the choice tape. The real fibre.c, messageq.c and list.c object code is compiled with -fsanitize=thread and runs '
+             'under harness/isched/vrt.c: ISR mode fires each handler as a nested function call before any atomic operation (or, '
+             'every-access profile, before any instrumented memory access) of the code it interrupts, nesting depth 2; THREADS mode '
+             'runs them as coroutines pre-empted at atomic operations. After the last interrupt the scheduler is called until idle '
+             '(bounded). Oracle over the history: every accepted fibre_run_atomic(f) is followed by a dispatch of f that starts after '
+             'it returned (unless a fibre_kill(f) returned later); dispatches <= reasons; the handler fibre receives exactly the '
+             'events whose send returned true, each once and intact, in send order where unambiguous; quiescence is reached; and a '
+             'sequential epilogue (kill all, fibre_run in a generated order, four passes) dispatches exactly in that order. enum '
+             'stages enumerate every placement for fixed scripts. Non-trivial: an interrupt strictly inside fibre_scheduler_next / '
+             'fibre_run / fibre_kill / fibre_run_atomic, or nested between another handler\'s claim and send. Distinct = distinct tapes.',
+        stages=[
+            dict(h='fibconc', mode='enum', what='ISR, script %d, handlers %s, %s granularity' % (sc, hs, 'every-access' if ea else 'atomic'),
+                 params=dict(dict(mode=1, script=sc, every_access=ea, oracle=6, handlers=len(hs), evdepth=ed), **{'h%d' % i: v for i, v in enumerate(hs)}),
+                 workers=2, common=dict(split=3, maxruns=1500000))
+            for (sc, hs, ea, ed) in [(0, (3, 1), 1, 1), (0, (4, 3, 2), 0, 2), (1, (3, 0), 1, 1), (1, (5, 3, 1), 0, 1), (2, (2, 3), 1, 2), (2, (1, 2, 0), 0, 1), (3, (3, 3), 1, 1), (3, (4, 4, 1), 0, 2), (4, (1, 2), 1, 1), (4, (2, 1, 1), 0, 1)]
+        ] + [
+            dict(h='fibconc', mode='rc', what='random scripts, handlers, placements, both modes', params=dict(oracle=6),
+                 quick=dict(cases=60000, len=500), thorough=dict(cases=3000000, len=500)),
+        ],
+        require={'interrupt-inside-fibre_scheduler_next': 1000, 'interrupt-inside-fibre_run': 200, 'interrupt-inside-fibre_kill': 100,
+                 'interrupt-inside-fibre_run_atomic': 50, 'interrupt-nested-between-claim-and-send': 100, 'event-queue-full-path': 500,
+                 'event-delivered': 1000, 'threads-mode': 1000},
+        assumptions=['"is dispatched by a subsequent call" is checked as bounded eventuality: within 4*(3+requests)+8+yields passes after the last interrupt',
+                     'a fibre_kill that returns after the request completed may withdraw it (the statement says "a later fibre_kill")',
+                     'event order is asserted only where it is unambiguous (A sent completely before B was claimed)'],
+        technique='fuzzing of interrupt placements and thread schedules: compiler-instrumented object code under a harness-owned scheduler; bounded-exhaustive placement enumeration + rapidcheck; history oracle',
+    ),
+    'C07': dict(
+        title='Lock-free structures are data-race-free under the C11 memory model',
+        rule='every execution generated for C04, C05 and C06 (same harnesses, same scenario and schedule generators, oracle=7): the library '
+             'object code is compiled with -fsanitize=thread, so harness/isched/vrt.c sees every plain access and every atomic operation '
+             'together with the memory order actually compiled in; it keeps a vector clock per context, a release clock per atomic '
+             'location (release store starts a release sequence, RMWs continue it, acquire loads/RMWs join it, relaxed accesses transfer '
+             'nothing except through fences, atomic_signal_fence orders nothing between contexts) and per-byte shadow state, and reports '
+             'any plain access that conflicts with another context\'s plain or atomic access without happens-before. Interrupt handlers '
+             'are treated as threads created at scenario start. Non-trivial: the execution contains a cross-context hand-over (payload '
+             'written by one context and read by another, or a wake-up request). Distinct = distinct tapes. Thorough adds real pthreads '
+             'under the real ThreadSanitizer.',
+        stages=[
+            dict(h='mqconc', mode='enum', what='message queue, THREADS, 2 senders x 1, depth 2, <=3 pre-emptions', params=dict(mode=0, depth=2, senders=2, msgs=1, retries=0, preempt=3, oracle=7),
+                 workers=4, common=dict(split=5, maxruns=400000)),
+            dict(h='mqconc', mode='enum', what='message queue, ISR every-access, 3 nested senders', params=dict(mode=1, roles=0, depth=1, senders=3, msgs=1, retries=0, every_access=1, oracle=7),
+                 workers=4, common=dict(split=4, maxruns=400000)),
+            dict(h='mqconc', mode='rc', what='message queue, random', params=dict(oracle=7), quick=dict(cases=40000, len=400), thorough=dict(cases=2000000, len=400)),
+            dict(h='ringconc', mode='enum', what='ring buffer, THREADS len 3, 3 puts, 4 consumer ops, offset 2', params=dict(mode=0, len=3, puts=3, gets=4, pre=2, empties=1, oracle=7),
+                 workers=4, common=dict(split=4, maxruns=2000000)),
+            dict(h='ringconc', mode='rc', what='ring buffer, random', params=dict(oracle=7), quick=dict(cases=40000, len=300), thorough=dict(cases=2000000, len=300)),
+            dict(h='fibconc', mode='enum', what='fibres, ISR script 0, event + run_atomic, every access', params=dict(mode=1, script=0, every_access=1, oracle=7, handlers=2, evdepth=1, h0=3, h1=1),
+                 workers=2, common=dict(split=3, maxruns=1500000)),
+            dict(h='fibconc', mode='enum', what='fibres, ISR script 4 (request queue full), every access', params=dict(mode=1, script=4, every_access=1, oracle=7, handlers=2, evdepth=1, h0=1, h1=2),
+                 workers=2, common=dict(split=3, maxruns=1500000)),
+            dict(h='fibconc', mode='rc', what='fibres, random, both modes', params=dict(oracle=7), quick=dict(cases=40000, len=500), thorough=dict(cases=2000000, len=500)),
+        ],
+        require={'payload-handed-over': 1000, 'event-delivered': 1000, 'threads-mode': 1000, 'isr-mode': 1000},
+        assumptions=['executions are sequentially consistent interleavings; non-SC behaviours of weakened atomics are not generated - race freedom is decided as stated and the carry-over to weak machines is the DRF-SC theorem',
+                     'happens-before follows the C11 rules as implemented in vrt.c; a failed CAS is accounted with its success order (can hide, never invent, a race)',
+                     'library calls such as memset in the *_init functions are not instrumented; they only run in single-context set-up, which happens-before every context'],
+        technique='fuzzing of schedules with an in-harness vector-clock (FastTrack-style) happens-before detector driven by the compiled-in memory orders; real ThreadSanitizer soak in the thorough tier',
     ),
     'C09': dict(
         title='Linked list behaves as a sequence under every order of operations',
